@@ -301,6 +301,12 @@ def handle (toks : List String) : String :=
       let (m, _) := parseMod tree.toList
       let (x, _) := parseMod repl.toList
       showMod (m.setAt (name.splitOn ".") x)
+  -- C08: the loop over what named_modules() really yields (memo on object identity): result | names yielded
+  | ["loop08", tree, filt, w, a] =>
+      let (m, _) := parseMod tree.toList
+      let f : Option (List Nat) := if filt == "none" then none else some (parseNatList filt)
+      showMod (quantizeLoop ⟨f, qtOfName? w, qtOfName? a⟩ m) ++ " "
+        ++ ";".intercalate (m.namedMemo.map fun pm => ".".intercalate pm.1)
   | ["fwd08", kind, acts, inp, outq] =>
       let ik : InKind := match inp with | "float" => .float | "same" => .quantSameQtype | _ => .quantOther
       let oq : Option Bool := match outq with | "same" => some true | "other" => some false | _ => none
